@@ -4,7 +4,6 @@ import (
 	"crypto/ecdsa"
 	"crypto/rand"
 	"crypto/x509"
-	"crypto/x509/pkix"
 	"encoding/binary"
 	"encoding/hex"
 	"fmt"
@@ -215,14 +214,24 @@ func IssuerChainStyled(style int, certs ...*Cert) string {
 
 // MkCRL creates a CRL signed by issuer.
 func MkCRL(issuer *Cert, this, next time.Time, revoked []*big.Int) []byte {
-	var rc []pkix.RevokedCertificate
+	var es []x509.RevocationListEntry
 	for _, s := range revoked {
-		rc = append(rc, pkix.RevokedCertificate{SerialNumber: s, RevocationTime: this})
+		// entries carry the optional reasonCode extension with any of the RFC 5280 values (a listed serial is listed, whatever the reason)
+		rc := int(new(big.Int).Mod(s, big.NewInt(11)).Int64())
+		if rc == 7 {
+			rc = 0
+		}
+		es = append(es, x509.RevocationListEntry{SerialNumber: s, RevocationTime: this, ReasonCode: rc})
 	}
+	return MkCRLEntries(issuer, this, next, es)
+}
+
+// MkCRLEntries creates a CRL with the given entries, signed by issuer.
+func MkCRLEntries(issuer *Cert, this, next time.Time, es []x509.RevocationListEntry) []byte {
 	ic := *issuer.Cert // any certificate may be made to "issue" a CRL here, whatever its key usage says
 	ic.KeyUsage |= x509.KeyUsageCRLSign
 	der, err := x509.CreateRevocationList(rand.Reader, &x509.RevocationList{
-		Number: big.NewInt(1), ThisUpdate: this, NextUpdate: next, RevokedCertificates: rc,
+		Number: big.NewInt(1), ThisUpdate: this, NextUpdate: next, RevokedCertificateEntries: es,
 	}, &ic, issuer.Key)
 	if err != nil {
 		panic(err)
